@@ -15,6 +15,11 @@ fn items(thorough: bool) -> Vec<String> {
         v.push(format!("thread{{ {a} }}"));
     }
     v.push("other{ L:z0 }".into());
+    // raw directory listings: directly, unrecorded, and through the other cache (same id `d`)
+    v.push("Q:d".into());
+    v.push("norec{ Q:d }".into());
+    v.push("other{ Q:d }".into());
+    v.push("other{ Q:d L:z0 }".into());
     // a panic unwinding out of a no_record block / a nested load, caught inside the same load
     v.push("try{ norec{ X:b } }".into());
     v.push("try{ X:b }".into());
